@@ -205,9 +205,8 @@ func (h *inFlightRequestsHandler) close() {
 			inFlight.close(fmt.Errorf("%v: handler closed", h))
 		}
 		h.inFlightLock.Unlock()
-		streamIds := h.streamIds
-		h.streamIds = nil
-		close(streamIds)
+		// the stream ids channel is neither closed nor set to nil: senders and the receive loop may be borrowing or
+		// releasing a stream id right now, and nobody ever blocks on it; isClosed guards its use from now on
 		log.Trace().Msgf("%v: successfully closed", h)
 	}
 }
